@@ -6,8 +6,10 @@ import (
 	"os"
 	"os/exec"
 	"path/filepath"
+	"reflect"
 	"sort"
 	"strings"
+	"unsafe"
 
 	"github.com/evolbioinfo/gotree/cmd"
 	"github.com/evolbioinfo/gotree/mcrt"
@@ -91,12 +93,27 @@ func cliResetFlags() {
 		}
 		s.f.Changed = false
 	}
-	// flags cobra adds lazily (help) are not in the snapshot: reset them too
+	// flags cobra adds lazily (help) are not in the snapshot: reset them too; and each flag set forgets which flags
+	// were given on earlier command lines (pflag keeps them in unexported maps: NFlag(), Visit() read those)
 	for _, c := range cliAllCommands() {
+		for _, fs := range []*pflag.FlagSet{c.Flags(), c.PersistentFlags(), c.LocalFlags(), c.InheritedFlags()} {
+			cliForget(fs)
+		}
 		if f := c.Flags().Lookup("help"); f != nil {
 			f.Value.Set("false")
 			f.Changed = false
 		}
+	}
+}
+
+func cliForget(fs *pflag.FlagSet) {
+	v := reflect.ValueOf(fs).Elem()
+	for _, name := range []string{"actual", "orderedActual"} {
+		f := v.FieldByName(name)
+		if !f.IsValid() {
+			panic("pflag.FlagSet has no field " + name)
+		}
+		reflect.NewAt(f.Type(), unsafe.Pointer(f.UnsafeAddr())).Elem().Set(reflect.Zero(f.Type()))
 	}
 }
 
